@@ -173,6 +173,7 @@ type vpIdP struct {
 	idTokenOnRefresh bool
 	userinfoClaims map[string]interface{} // override
 	lastIDToken    string
+	lastAccessTok  string
 
 	// scheduler gate for token endpoint (refresh)
 	gate func(kind string, form url.Values)
@@ -425,13 +426,17 @@ func (p *vpIdP) writeTokens(rw http.ResponseWriter, kind string, lid string, lin
 	u := p.user(lin.User)
 	at := fmt.Sprintf("at-%s-%d-%s", lin.User, lin.Gen, vpRandHex(4))
 	lin.AccessTok = at
+	p.lastAccessTok = at
 	p.atIndex[at] = lin.User
 	now := time.Now()
 	claims := map[string]interface{}{
 		"iss": p.issuer(), "sub": u.Sub, "aud": vpClientID,
 		"iat": now.Unix(), "exp": now.Add(time.Duration(p.idTokenTTL) * time.Second).Unix(),
-		"email": u.Email, "email_verified": true, "preferred_username": u.Username,
+		"email": u.Email, "email_verified": true,
 		"vp_gen": lin.Gen, "vp_lineage": lid,
+	}
+	if u.Username != "" {
+		claims["preferred_username"] = u.Username
 	}
 	if u.Groups != nil {
 		claims["groups"] = u.Groups
@@ -500,7 +505,10 @@ func (p *vpIdP) mintIDToken(user string, mut func(c map[string]interface{}), alg
 	claims := map[string]interface{}{
 		"iss": p.issuer(), "sub": u.Sub, "aud": vpClientID,
 		"iat": now.Unix(), "exp": now.Add(time.Hour).Unix(),
-		"email": u.Email, "email_verified": true, "preferred_username": u.Username,
+		"email": u.Email, "email_verified": true,
+	}
+	if u.Username != "" {
+		claims["preferred_username"] = u.Username
 	}
 	if p.name == "extra" {
 		claims["aud"] = vpExtraAudience
